@@ -41,6 +41,11 @@ func newInitCommand() *cobra.Command {
 }
 
 func initImpl(namespace string) error {
+	// The scaffold has to be a package that `yardl generate` accepts
+	if !packaging.IsValidNamespaceName(formatting.ToPascalCase(namespace)) {
+		return fmt.Errorf("'%s' cannot be used as a package name: the namespace '%s' derived from it is not a PascalCased identifier", namespace, formatting.ToPascalCase(namespace))
+	}
+
 	modelDir := "model"
 	if err := os.MkdirAll(modelDir, 0775); err != nil {
 		return err
